@@ -3,6 +3,8 @@ CONSTANTS MaxRuns = 2 MaxTouch = 2
   Scens <- ScenExpB
   Settings <- SettingsQuick
   CreatedSetsChanged = TRUE
+  Reuses = {FALSE, TRUE}
+  AutoReload = TRUE
   KeepHistory = TRUE
 INVARIANT Emitted
 CHECK_DEADLOCK FALSE
